@@ -13,7 +13,7 @@ Lemma render_obj l : render (XObj l) = [123%N] ++ obj_members true l ++ [125%N].
 Proof. reflexivity. Qed.
 
 Fixpoint xsize (x : ex) : nat :=
-  match x with XLit => 1 | XArr l | XObj l => S (fold_right (fun c a => xsize c + a) 0 l) end.
+  match x with XLit | XNull => 1 | XArr l | XObj l => S (fold_right (fun c a => xsize c + a) 0 l) end.
 
 Lemma key_is_string : JString key_text.
 Proof. exists [107%N]. split; [reflexivity|]. constructor; [reflexivity|constructor]. Qed.
@@ -55,8 +55,9 @@ Proof.
   assert (Hkids : forall l, S (fold_right (fun c a => xsize c + a) 0 l) <= S n -> forall m, In m l -> JValue (render m)).
   { intros l Hl m Hm. apply IH. clear -Hl Hm. induction l as [|c r IHl]; [inversion Hm|]. cbn in Hl.
     destruct Hm as [->|Hm]; [lia|apply IHl; [lia|assumption]]. }
-  destruct x as [|l|l].
+  destruct x as [| |l|l].
   - exact one_is_value.
+  - exact jv_null.
   - rewrite render_arr. destruct l as [|m r].
     + cbn. apply (jv_empty_array []). constructor.
     + apply jv_array. apply elements_of; [apply Hkids; exact Hs|discriminate].
@@ -126,15 +127,15 @@ Section Term.
     | NLit _ _ => Ok (Some XLit)
     | NArr _ _ items => do xs <- beach f p items; Ok (Some (XArr xs))
     | NObj _ _ props => do xs <- beach f p props; Ok (Some (XObj xs))
-    | NRef _ _ names =>
+    | NRef _ nul names =>
       match names with
       | [] => Err 1302
-      | _ => pick f p names
+      | _ => do x <- pick f p names; Ok (match x with None => if nul then Some XNull else None | Some v => Some v end)
       end
     end.
   Proof.
     destruct n as [o u|o u items|o u props|o u names]; try reflexivity; cbn [Recursion.build].
-    3: { destruct names as [|t0 r0]; [reflexivity|]. exact (pick_fix f p (t0 :: r0)). }
+    3: { destruct names as [|t0 r0]; [reflexivity|]. rewrite (pick_fix f p (t0 :: r0)). reflexivity. }
     - assert (E : forall l, (fix each (l : list node) : res (list ex) :=
                     match l with
                     | [] => Ok []
@@ -175,6 +176,7 @@ Section Term.
         { apply beach_ok. intros c Hc. apply IH. pose proof (sz_child c props Hc). cbn [sz] in Hb. lia. }
         destruct (beach f p props); cbn [bind]; auto.
       + destruct names as [|t0 r0]; [exact I|]. generalize (t0 :: r0). intros l.
+        assert (Hp : not_panic (pick f p l)); [|destruct (pick f p l) as [[x|]| |]; cbn [bind]; auto].
         induction l as [|t r IHl]; [exact I|]. cbn [pick]. destruct (Nat.ltb_spec 1 (count t p)); [exact IHl|].
         destruct (lookup t roott) as [[rt own]|] eqn:El; [|exact I].
         destruct (lookup_in t _ El) as [Hin Hs]. pose proof (room_enter t p Hin ltac:(lia)) as Hr.
